@@ -1,48 +1,43 @@
 From Coq Require Import List Arith Lia Bool.
+Require Import TT.Model.C07Worklist.
 Import ListNotations.
 
 (* Generic model of the two worklists (resolve_types_lazily, discover_nested_dependencies):
    pop a name; skip it if already resolved; if it has a definition, record it and push those of its
    dependencies that have a definition and are not yet resolved. *)
+Section Memb.
+Variable node : Type.
+Variable eq_dec : forall a b : node, {a = b} + {a <> b}.
+Local Notation memb := (memb eq_dec).
+Lemma memb_true x l : memb x l = true <-> In x l.
+Proof. unfold C07Worklist.memb; destruct (in_dec eq_dec x l); split; auto; discriminate. Qed.
+Lemma memb_false x l : memb x l = false <-> ~ In x l.
+Proof. unfold C07Worklist.memb; destruct (in_dec eq_dec x l); split; auto; try discriminate; tauto. Qed.
+End Memb.
+
 Section Worklist.
 Variable node : Type.
 Variable eq_dec : forall a b : node, {a = b} + {a <> b}.
+Local Notation memb_true := (memb_true node eq_dec).
+Local Notation memb_false := (memb_false node eq_dec).
 Variable succ : node -> list node.      (* names harvested from the fields of n's definition *)
-Variable defined : node -> bool.        (* n has a (serde) definition in the index *)
+Variable defined : node -> bool.        (* n can be resolved *)
+Variable pushok : node -> bool.         (* n has an entry in the definition index *)
+Hypothesis defined_pushok : forall n, defined n = true -> pushok n = true.
 Variable U : list node.                 (* the definition index: all defined names, no duplicates *)
 Hypothesis U_nodup : NoDup U.
 Hypothesis U_defined : forall n, defined n = true -> In n U.
 
-Definition memb (x : node) (l : list node) : bool := if in_dec eq_dec x l then true else false.
-Lemma memb_true x l : memb x l = true <-> In x l.
-Proof. unfold memb; destruct (in_dec eq_dec x l); split; auto; discriminate. Qed.
-Lemma memb_false x l : memb x l = false <-> ~ In x l.
-Proof. unfold memb; destruct (in_dec eq_dec x l); split; auto; try discriminate; tauto. Qed.
+Local Notation memb := (memb eq_dec).
 
-Fixpoint work (fuel : nat) (todo seen : list node) : option (list node) :=
-  match fuel with
-  | 0 => None
-  | S f =>
-    match todo with
-    | [] => Some seen
-    | n :: rest =>
-        if memb n seen then work f rest seen
-        else if defined n then
-          let seen' := n :: seen in
-          work f (filter (fun d => negb (memb d seen') && defined d) (succ n) ++ rest) seen'
-        else work f rest seen
-    end
-  end.
+Local Notation work := (work eq_dec succ defined pushok).
 
 (* specification: defined names reachable from the roots through defined names *)
-Inductive reach : node -> node -> Prop :=
-| reach_refl a : reach a a
-| reach_step a b c : defined a = true -> In b (succ a) -> reach b c -> reach a c.
-Definition target (roots : list node) (x : node) : Prop :=
-  defined x = true /\ exists r, In r roots /\ reach r x.
+Local Notation reach := (reach succ defined).
+Local Notation target := (target succ defined).
 
 Lemma reach_trans a b c : reach a b -> reach b c -> reach a c.
-Proof. induction 1; eauto using reach. Qed.
+Proof. induction 1 as [a|a b c0 Hd Hi Hr IH]; intros H; auto. econstructor 2; eauto. Qed.
 
 Record WInv (roots todo seen : list node) : Prop := {
   w_seen : forall x, In x seen -> target roots x;
@@ -72,7 +67,7 @@ Proof.
         -- apply Ht; right; auto.
       * intros x y Hx Hy Hd. destruct (in_dec eq_dec y (n :: seen)) as [|Hny]; auto. right.
         destruct Hx as [<-|Hx].
-        -- apply in_or_app; left. apply filter_In. split; auto. rewrite Hd, andb_true_r. apply negb_true_iff. apply memb_false; auto.
+        -- apply in_or_app; left. apply filter_In. split; auto. rewrite (defined_pushok _ Hd), andb_true_r. apply negb_true_iff. apply memb_false; auto.
         -- destruct (Hc x y Hx Hy Hd) as [|[<-|]]; [exfalso; apply Hny; right; auto | exfalso; apply Hny; left; auto | apply in_or_app; auto].
       * intros r Hr1 Hr2. destruct (Hr r Hr1 Hr2) as [|[<-|]]; [left; right; auto | left; left; auto | right; apply in_or_app; auto].
       * constructor; auto.
@@ -136,7 +131,7 @@ Proof.
   - destruct (defined n) eqn:Ed.
     + apply IH. unfold pot. rewrite app_length.
       apply memb_false in Em. pose proof (pot_expand n seen Em (U_defined n Ed)) as Hpe.
-      pose proof (filter_len (fun d => negb (memb d (n :: seen)) && defined d) (succ n)). lia.
+      pose proof (filter_len (fun d => negb (memb d (n :: seen)) && pushok d) (succ n)). lia.
     + apply IH. unfold pot. lia.
 Qed.
 End Worklist.
